@@ -591,7 +591,9 @@ impl Context {
                     + m::nl();
             }
 
-            if let Ok((_, results)) = self.interpret(keyword, CodeSource::Internal) {
+            // Evaluate the variable in a copy of the session: looking at a variable must not
+            // change the session (`ans`, in particular).
+            if let Ok((_, results)) = self.clone().interpret(keyword, CodeSource::Internal) {
                 help += m::nl()
                     + results.to_markup(
                         None,
